@@ -5,6 +5,9 @@ import (
 	"encoding/json"
 	"fmt"
 	"os"
+	"runtime"
+	"runtime/pprof"
+	"time"
 
 	"verif/internal/fw"
 )
@@ -47,6 +50,22 @@ func main() {
 	if tier != "quick" && tier != "thorough" {
 		fmt.Fprintln(os.Stderr, "tier must be quick or thorough")
 		os.Exit(2)
+	}
+	if os.Getenv("VERIF_DEBUG") != "" {
+		go func() {
+			for {
+				time.Sleep(3 * time.Second)
+				var m runtime.MemStats
+				runtime.ReadMemStats(&m)
+				fmt.Fprintf(os.Stderr, "[debug] heap=%dMB sys=%dMB goroutines=%d\n", m.HeapAlloc>>20, m.Sys>>20, runtime.NumGoroutine())
+				if os.Getenv("VERIF_DEBUG") == "prof" && m.HeapAlloc>>20 > 2000 {
+					f, _ := os.Create("/tmp/heap.prof")
+					pprof.WriteHeapProfile(f)
+					f.Close()
+					os.Exit(3)
+				}
+			}
+		}()
 	}
 	r := fw.New(id, tier)
 	p.run(r)
